@@ -27,8 +27,9 @@ m = {
               'baseline_off_cmd': 'cd /repo && cargo test --workspace --no-fail-fast --offline', 'source_commits': HOOK_COMMITS, 'add_only': True},
     'engines': [
         {'name': 'mirsym', 'path': '/verif/mirsym', 'serves_properties': sorted(CHECKS), 'kind_free_text': 'symbolic execution of rustc MIR (regenerated from /repo on every run) into integer-arithmetic SMT with exact machine semantics; z3 decides path-condition ∧ ¬goal per path; bounded by loop unrollings stated per obligation'},
+    ] + ([] if not __import__('os').path.isdir('/verif/kani') else [
         {'name': 'kani', 'path': '/verif/kani', 'serves_properties': sorted(p for p in CHECKS if 'kani' in CHECKS[p].get('engine', '')), 'kind_free_text': 'Kani 0.68 / CBMC 6.11 proof harnesses over the real crate (path dependency), unwinding assertions on'},
-    ],
+    ]),
     'checks': checks,
     'not_applicable': na,
     'notes': 'Exit codes: 0 held, 1 VIOLATION (after replay), 2 inconclusive (solver unknown / vacuous / tool error). See DESIGN.md.',
